@@ -47,7 +47,13 @@ func numberLoops(body *ast.BlockStmt) map[ast.Stmt]int {
 
 // VerifyFunc generates the obligations of one function declaration against its contract.
 func VerifyFunc(L *Loaded, db *ContractDB, pkg *packages.Package, fd *ast.FuncDecl, c *Contract, prop string) (res *UnitResult) {
-	unit := pkg.Types.Name() + "." + c.Key
+	return VerifyUnit(L, db, pkg, fd, nil, "", c, prop)
+}
+
+// VerifyUnit verifies a function declaration, or (lit != nil) one function literal of it whose
+// captured variables are arbitrary values of their types.
+func VerifyUnit(L *Loaded, db *ContractDB, pkg *packages.Package, fd *ast.FuncDecl, lit *ast.FuncLit, suffix string, c *Contract, prop string) (res *UnitResult) {
+	unit := pkg.Types.Name() + "." + c.Key + suffix
 	res = &UnitResult{Unit: unit, Prop: prop, Contract: c}
 	cases := c.Cases
 	if len(cases) == 0 {
@@ -65,7 +71,13 @@ func VerifyFunc(L *Loaded, db *ContractDB, pkg *packages.Package, fd *ast.FuncDe
 					panic(r)
 				}
 			}()
-			x.runFunc(fd, c, cs)
+			x.openCaptured = lit != nil
+			if lit != nil {
+				x.litPos = lit.Body.Lbrace + 1
+				x.runBody(nil, lit.Type, lit.Body, c, cs)
+			} else {
+				x.runBody(fd.Recv, fd.Type, fd.Body, c, cs)
+			}
 		}()
 		for _, n := range x.oblOrder {
 			res.Obls = append(res.Obls, x.obls[n])
@@ -79,20 +91,20 @@ func VerifyFunc(L *Loaded, db *ContractDB, pkg *packages.Package, fd *ast.FuncDe
 	return
 }
 
-func (x *Exec) runFunc(fd *ast.FuncDecl, c *Contract, cs Clause) {
+func (x *Exec) runBody(recv *ast.FieldList, ftype *ast.FuncType, body *ast.BlockStmt, c *Contract, cs Clause) {
 	info := x.info()
 	st := newState()
-	x.loopOrd = numberLoops(fd.Body)
+	x.loopOrd = numberLoops(body)
 	x.conScope = map[string]types.Object{}
 	var realParams []types.Object
-	if fd.Recv != nil && len(fd.Recv.List) > 0 {
-		if len(fd.Recv.List[0].Names) > 0 {
-			realParams = append(realParams, info.Defs[fd.Recv.List[0].Names[0]])
+	if recv != nil && len(recv.List) > 0 {
+		if len(recv.List[0].Names) > 0 {
+			realParams = append(realParams, info.Defs[recv.List[0].Names[0]])
 		} else {
 			realParams = append(realParams, nil)
 		}
 	}
-	for _, f := range fd.Type.Params.List {
+	for _, f := range ftype.Params.List {
 		if len(f.Names) == 0 {
 			realParams = append(realParams, nil)
 		}
@@ -128,7 +140,7 @@ func (x *Exec) runFunc(fd *ast.FuncDecl, c *Contract, cs Clause) {
 		replayVals[c.Params[i]] = asTerm(v).S
 	}
 	// locals and named results are visible to loop invariants by name (first definition wins)
-	ast.Inspect(fd, func(n ast.Node) bool {
+	ast.Inspect(body, func(n ast.Node) bool {
 		if _, ok := n.(*ast.FuncLit); ok {
 			return false
 		}
@@ -143,8 +155,8 @@ func (x *Exec) runFunc(fd *ast.FuncDecl, c *Contract, cs Clause) {
 	})
 	x.retObjs = nil
 	var resTypes []types.Type
-	if fd.Type.Results != nil {
-		for _, f := range fd.Type.Results.List {
+	if ftype.Results != nil {
+		for _, f := range ftype.Results.List {
 			t := info.TypeOf(f.Type)
 			if len(f.Names) == 0 {
 				resTypes = append(resTypes, t)
@@ -176,6 +188,11 @@ func (x *Exec) runFunc(fd *ast.FuncDecl, c *Contract, cs Clause) {
 		}
 	}
 	for _, r := range c.Requires {
+		if r.Prop == "assume" {
+			x.noteAssume("assumed precondition of " + c.Key + " (not checked at call sites): " + r.Src)
+		} else if r.Prop != "" && r.Prop != x.prop {
+			continue
+		}
 		st.assume(x.evalBool(r.Expr, st))
 	}
 	if cs.Expr != nil {
@@ -222,7 +239,7 @@ func (x *Exec) runFunc(fd *ast.FuncDecl, c *Contract, cs Clause) {
 		replayVals["$SE_String"] = x.heapGet(tmp, x.seKey(SStr), arraySort(SInt, arraySort(SInt, SStr))).S
 		x.contract = false
 	}
-	outs := x.execBlock(fd.Body.List, st)
+	outs := x.execBlock(body.List, st)
 	x.paths = len(outs)
 	var coverPCs []string
 	for _, o := range outs {
